@@ -7,7 +7,7 @@ EXPLANATION = ('Proved: key2idx maps every blade key to its canonical position (
                'algebra\'s signature in order, the cayley payload is algebra.cayley laid out row = left factor, column = right factor in '
                'canonical order with the scalar written 1; inplacereplace writes, for each reported point, exactly the coefficients of that '
                'subject, each with the value sent for its own blade (canonical full layout read by position, every other layout through '
-               'key2idx), only when it changed, and touches no other subject.  encode/walker (recursive generator functions, interpreted with eager generators) are checked on five concrete subject-tree shapes with opaque multivectors (flat, nested, callables, array-valued, the four storage layouts); '
+               'key2idx), only when it changed, and touches no other subject; get_subjects encodes a *new* evaluation of the subjects on every call, the drag observer writes the reported points back before recomputing the payload, and an update_mvs message recomputes it (dependent callables are re-evaluated).  encode/walker (recursive generator functions, interpreted with eager generators) are checked on five concrete subject-tree shapes with opaque multivectors (flat, nested, callables, array-valued, the four storage layouts); '
                'bounded stand-in on the real widget: seeded nested subject trees over all '
                'multivector layouts decoded the way the front end decodes them; drag updates and dependent callables.  The JavaScript front '
                'end itself is not examined.')
